@@ -61,7 +61,7 @@ func init() {
 			if r.chance(0.05) { // long tournaments (library sorts switch algorithm above 12 elements)
 				ma = 24
 			}
-			q := genRequest(r, ReqOpts{Methods: []string{"majorityHeuristic"}, Prob: ProbOpts{MaxAlt: ma, MaxCrit: 6}})
+			q := genRequest(r, ReqOpts{Methods: []string{"majorityHeuristic"}, ExtraWeightKey: 0.1, Prob: ProbOpts{MaxAlt: ma, MaxCrit: 6}})
 			mp := q.Body["methodParameters"].(J)
 			heurShapeProblem(r, q)
 			heurShapeCurrent(r, q, mp)
